@@ -296,7 +296,20 @@ def always_converted(F, fn, k, depth=0, seen=None):
         if from_convert_ref(F, a):
             continue
         pp = as_param_path(a)
-        if pp is not None and pp[1] == () and pp[0] <= len(cfn.j.get('inputs', [])) and cfn.j['inputs'][pp[0] - 1].get('to_adt') == BEATMAP:
+        if pp is not None and pp[1] == () and cfn.kind == 'Closure' and pp[0] >= 2:
+            # `convert_ref(..).map(|map| helper(difficulty, &map))`: the closure's parameter is the payload of the receiver it is mapped over
+            parent = F.fn(cfn.path.rsplit('::', 1)[0])
+            ok = False
+            if parent is not None:
+                PP = prov.prov_of(parent)
+                for pb, pt in parent.calls():
+                    if pt['func'].get('name') in ('map', 'and_then', 'map_or', 'map_or_else', 'is_ok_and', 'is_some_and'):
+                        pargs = PP.call_args(pb)
+                        if pargs and any(x[0] == 'agg' and x[1] == 'closure' and x[2] == cfn.path for x in pargs[1:]) and from_convert_ref(F, pargs[0]):
+                            ok = True
+            if not ok:
+                bad.append(cfn.path)
+        elif pp is not None and pp[1] == () and pp[0] <= len(cfn.j.get('inputs') or []) and cfn.j['inputs'][pp[0] - 1].get('to_adt') == BEATMAP:
             bad += always_converted(F, cfn, pp[0], depth + 1, seen)
         else:
             bad.append(cfn.path)
